@@ -517,7 +517,8 @@ J_copy(e) ==
        ELSE V("type", p.same_type /\ p.k = x.k /\ p.cls = x.cls, x.cls)
             \o (CASE x.k = "dt" -> (IF p.k = "dt" THEN V("fields", ZRef(p.z) = ZRef(x.z) /\ p.w = x.w, x.w)
                                                      \o V("instant-offset", SameDT(x, p), <<x.off, x.f>>)
-                                                     \o V("zone-name", p.same_tzname, "tzname() and utcoffset() as before") ELSE <<>>)
+                                                     \o V("zone-name", p.same_tzname, "tzname() and utcoffset() as before")
+                                                     \o V("fold", p.f = x.f, x.f) ELSE <<>>)          \* `fold` is a public field too
                   [] x.k \in {"date", "time"} -> (IF p.k = x.k THEN V("fields", p.w = x.w, x.w) \o V("equal", p.eq, TRUE)
                                                      \o (IF x.k = "time" THEN V("zone-name", p.same_tzname, "tzname() and utcoffset() as before") ELSE <<>>)
                                                  ELSE <<>>)
